@@ -59,6 +59,10 @@ CONSTANTS Flavour,          \* "mixin" | "wrapmap" | "wrapfile"
           AbortNeedsVote, NonUndoPack, SpbPerSerial,
           ForeignAbortCleans, LateBookkeeping, CopyFailUntracked,
           StoreFaultUntracked,   \* _blob_storeblob lists the file in dirty_oids only after rename + chmod succeeded
+          StoreFailLeaks,        \* the working copy handed to a storeBlob whose store() raises stays in tmp/
+          UndoTempLeaks,         \* FileStorage's undo leaves its temporary file in tmp/ when the blob copy fails
+          PackWipesOidDir,       \* FileStorage's blob pack removes the whole oid directory of an object that was garbage at
+                                 \* the pack time - files of revisions written after the pack time included
           PackIgnoresInFlight    \* the wrapper's blob pack walks the directory without regard to a commit in progress
 
 VARIABLES hist,     \* committed history (ZHistory)
@@ -133,8 +137,9 @@ FreshCon(H, F, s) ==
    rbase |-> LoadBefore(H, 0, s + 1).d.refs,
    reg |-> <<>>, work |-> <<>>, newb |-> {}, pval |-> <<>>, ideal |-> <<>>,
    touched |-> {}, spon |-> FALSE, spidx |-> {}, spnew |-> {}, spfile |-> <<>>, sps |-> <<>>,
+   unl |-> {}, rel |-> {},        \* blobs the transaction removes from / puts (back) into the root object
    hw |-> {}, hr |-> {}]          \* blobs of which the application holds a writer / a reader handle open
-IsClean(c) == c.reg = <<>> /\ DOMAIN c.work = {} /\ c.newb = {} /\ c.pval = <<>> /\ ~c.spon
+IsClean(c) == c.reg = <<>> /\ DOMAIN c.work = {} /\ c.newb = {} /\ c.pval = <<>> /\ ~c.spon /\ c.unl = {} /\ c.rel = {}
 \* the committed bytes in the connection's snapshot
 CView(c, b) == c.base[b]
 \* what the connection shows, as the code computes it: working copy, else the savepoint file named
@@ -145,7 +150,7 @@ AView(c, b) == IF b \in DOMAIN c.work THEN c.work[b]
 \* what the application wrote (ghost)
 IView(c, b) == IF b \in DOMAIN c.ideal THEN c.ideal[b] ELSE CView(c, b)
 Viewable(c, b) == b \in c.newb \cup c.spnew \/ c.ser[b] # 0
-RootRefs(c) == c.rbase \cup c.newb \cup c.spnew
+RootRefs(c) == (c.rbase \cup c.newb \cup c.spnew \cup c.rel) \ c.unl
 PViewOf(c) == IF c.pval # <<>> THEN c.pval[1] ELSE c.pbase
 NoOpen == con.hw = {} /\ con.hr = {}
 \* a connection without changes starts a new transaction (transaction.begin) before its first change
@@ -291,6 +296,22 @@ ModifyP(v) ==
   /\ res' = OK("modify")
   /\ UNCHANGED nextb /\ SameStore /\ DerivedCon
 
+\* del root['b<n>'] / root['b<n>'] = the Blob object the application still holds (not within savepoints in this model)
+Unlink(b) ==
+  /\ Idle /\ NoOpen /\ ~con.spon /\ b \in Blobs
+  /\ LET c == Touch(con) IN
+     /\ c.ser[b] # 0 /\ b \in RootRefs(c)
+     /\ con' = [c EXCEPT !.unl = IF b \in c.rel THEN @ ELSE @ \cup {b}, !.rel = @ \ {b}, !.reg = AddReg(@, 0)]
+  /\ res' = OK("unlink")
+  /\ UNCHANGED nextb /\ SameStore /\ DerivedCon
+Relink(b) ==
+  /\ Idle /\ NoOpen /\ ~con.spon /\ b \in Blobs
+  /\ LET c == Touch(con) IN
+     /\ c.ser[b] # 0 /\ b \notin RootRefs(c)
+     /\ con' = [c EXCEPT !.rel = IF b \in c.unl THEN @ ELSE @ \cup {b}, !.unl = @ \ {b}, !.reg = AddReg(@, 0)]
+  /\ res' = OK("relink")
+  /\ UNCHANGED nextb /\ SameStore /\ DerivedCon
+
 \* f = blob.open('w'); f.write(x); f.flush() - and the handle stays open (one handle at a time in this model)
 OpenWrite(b, x) ==
   /\ Idle /\ NoOpen /\ b \in Blobs
@@ -332,7 +353,7 @@ Flush(c) ==
                  !.reg = <<>>]
 
 Savepoint ==
-  /\ Idle /\ NoOpen /\ ~IsClean(con) /\ Len(con.sps) < MaxSp
+  /\ Idle /\ NoOpen /\ con.unl = {} /\ con.rel = {} /\ ~IsClean(con) /\ Len(con.sps) < MaxSp
   /\ LET f == Flush([con EXCEPT !.spon = TRUE]) IN
      con' = [f EXCEPT !.sps = Append(@, [idx |-> f.spidx, new |-> f.spnew, pval |-> f.pval,
                                          ideal |-> f.ideal, file |-> f.spfile])]
@@ -370,9 +391,12 @@ TpcBegin ==
 \* reachable right after its referrer; with savepoints first one more flush, then every oid of the TmpStore
 \* index in oid order.  storeBlob = store() of the record (which may raise ConflictError), then the rename of
 \* the file to <oid>/<tid>.blob and the entry in dirty_oids.
+\* objects that become reachable while their referrer is pickled are stored last-found first (ObjectWriter's stack)
+RECURSIVE RevSeqOfSet(_)
+RevSeqOfSet(S) == IF S = {} THEN <<>> ELSE <<MaxS(S)>> \o RevSeqOfSet(S \ {MaxS(S)})
 RECURSIVE Expand(_, _)
 Expand(c, s) == IF s = <<>> THEN <<>>
-                ELSE (IF Head(s) = 0 THEN <<0>> \o SeqOfSet(c.newb) ELSE <<Head(s)>>) \o Expand(c, Tail(s))
+                ELSE (IF Head(s) = 0 THEN <<0>> \o RevSeqOfSet(c.newb) ELSE <<Head(s)>>) \o Expand(c, Tail(s))
 StoreSeq(c) == IF c.spon THEN SeqOfSet(c.spidx) ELSE Expand(c, c.reg)
 
 StoreOne(c, tid, o, st) ==
@@ -382,7 +406,7 @@ StoreOne(c, tid, o, st) ==
      THEN \* the working copy was handed over (Blob._uncommitted) before store() raised: nobody owns it now;
           \* a savepoint file stays in the savepoint directory, which is removed with the TmpStore
           [st EXCEPT !.fail = TRUE,
-                     !.leak = IF o \in Blobs /\ ~c.spon THEN Append(@, c.work[o]) ELSE @,
+                     !.leak = IF StoreFailLeaks /\ o \in Blobs /\ ~c.spon THEN Append(@, c.work[o]) ELSE @,
                      !.done = IF o \in Blobs THEN @ \cup {o} ELSE @]
      ELSE IF o = 0 THEN [st EXCEPT !.staged = Append(@, DataRec(0, RootD(RootRefs(c))))]
      ELSE IF o = P THEN [st EXCEPT !.staged = Append(@, DataRec(P, PlainD(c.pval[1])))]
@@ -419,7 +443,7 @@ StoreGen(fault) ==
   /\ UNCHANGED <<hist, old, clk, packed, nextb, aborted, aux>> /\ DerivedCon
 Store == StoreGen(FALSE)
 \* the first storeBlob of the commit meets an I/O fault after the file was moved into place (a failing os.chmod)
-StoreFault == StoreGen(TRUE)
+StoreFault == txn.who = "c1" /\ StoreGen(TRUE)
 StoreOK == Store /\ txn'.phase = "stored"
 StoreFail == Store /\ txn'.phase = "failed"
 
@@ -641,7 +665,7 @@ UStoreCopyFail ==
   /\ \E src \in {UFirstSrc} :
        /\ src \in DOMAIN files /\ files[src].c # <<>>
        /\ IF IsMixin
-          THEN aux' = [aux EXCEPT !.utmp = @ + 1] /\ UNCHANGED <<files, dirty, leak>>
+          THEN aux' = [aux EXCEPT !.utmp = IF UndoTempLeaks THEN @ + 1 ELSE @] /\ UNCHANGED <<files, dirty, leak>>
           ELSE /\ files' = Put(files, <<src[1], txn.tid>>, [c |-> <<>>, w |-> <<>>, ro |-> FALSE, g |-> "failed-undo-copy"])
                /\ dirty' = IF CopyFailUntracked THEN dirty ELSE dirty \cup {<<src[1], txn.tid>>}
                /\ leak' = leak /\ aux' = aux
@@ -714,7 +738,10 @@ LeanFinish(H, T, B, A, D, cur, reach, miss0, only, ex) ==
                ELSE IF ~freed THEN [out |-> "nothing-freed", h |-> H]
                ELSE IF packerr THEN [out |-> "PackError", h |-> H]
                ELSE IF asserr THEN [out |-> "AssertionError", h |-> H]
-               ELSE [out |-> "ok", h |-> part1 \o part2]
+               ELSE [out |-> "ok", h |-> part1 \o part2,
+                     \* oids the packer writes bare into .removed: a blob record it does not copy, of an oid it has not marked
+                     wipe |-> {p[2] : p \in {p \in PosSet(H, B) \ K : p[2] \in Blobs /\ D[p] # Gone
+                                                                     /\ p[2] \notin reachFinal \cup DOMAIN only}}]
             : K \in {{p \in PosSet(H, B) :
                         \/ (p[2] \in reachFinal /\ cur[p[2]] = p[1])
                         \/ p \in ex
@@ -751,10 +778,12 @@ LeanFilePack(H, T) ==
 
 \* mixin: the packer tags <oid><tid> of every blob record it does not copy (or <oid> when no record of the
 \* object is left); _remove_blob_files_tagged_for_removal_during_pack removes them or moves them to <blobs>.old
-MixinPackFiles(F, H, H2) ==
-  LET goneOids == {b \in Blobs : (\E r \in BlobRevsOf(H) : r[1] = b) /\ ~(\E r \in BlobRevsOf(H2) : r[1] = b)}
-      removed == BlobRevsOf(H) \ BlobRevsOf(H2)
-  IN [k \in {k \in DOMAIN F : k[1] \notin goneOids /\ k \notin removed} |-> F[k]]
+MixinPackFiles(F, H, H2, wipe) ==
+  LET removed == BlobRevsOf(H) \ BlobRevsOf(H2)
+      kept == BlobRevsOf(H2)
+  IN IF PackWipesOidDir
+     THEN [k \in {k \in DOMAIN F : k[1] \notin wipe /\ k \notin removed} |-> F[k]]
+     ELSE [k \in {k \in DOMAIN F : k \notin removed /\ (k[1] \in wipe => k \in kept)} |-> F[k]]
 \* wrapper, as the code is: per oid directory keep the newest file if the object loads, else remove the directory
 NewestOnly(F, H2) ==
   LET T(b) == {k[2] : k \in {k \in DOMAIN F : k[1] = b}}
@@ -768,7 +797,7 @@ Pack(T) ==
   /\ \E r \in {IF IsMixin THEN LeanFilePack(hist, T) ELSE MappingPack(hist, T, TRUE, packed[2])} :
      LET done == r.out = "ok" IN
      \E h2 \in {IF done THEN Solid(r.h) ELSE hist} :
-     \E nf \in {TLCEval(IF IsMixin THEN (IF done THEN MixinPackFiles(files, hist, h2) ELSE files)
+     \E nf \in {TLCEval(IF IsMixin THEN (IF done THEN MixinPackFiles(files, hist, h2, r.wipe) ELSE files)
                          ELSE IF r.out \in {"ok", "same-time"}
                               THEN (IF NonUndoPack THEN NewestOnly(files, h2) ELSE LoadableOnly(files, h2))
                               ELSE files)} :
@@ -778,7 +807,10 @@ Pack(T) ==
         /\ packed' = <<IF done /\ T > packed[1] THEN T ELSE packed[1], IF ~IsMixin /\ done THEN T ELSE packed[2]>>
         /\ res' = Out("pack", r.out)
         /\ con' = FreshCon(h2, nf, LastTid(h2))
-  /\ UNCHANGED <<dirty, leak, clk, txn, nextb, aborted, aux>> /\ DerivedAll
+        \* (ghost: files of revisions the pack keeps, gone with their oid directory)
+        /\ aux' = [aux EXCEPT !.lost = [k \in (DOMAIN @) \cup {k \in (DOMAIN files) \ (DOMAIN nf) : IsMixin /\ k \in BlobRevsOf(h2)} |->
+                                          IF k \in DOMAIN @ THEN @[k] ELSE "pack-wiping-oid-directory"]]
+  /\ UNCHANGED <<dirty, leak, clk, txn, nextb, aborted>> /\ DerivedAll
 
 \* db.pack() on the wrapper while a commit is between storeBlob and tpc_finish (MappingStorage.pack does not wait
 \* for the commit lock; the blob pack walks the directory as it finds it): the file of the transaction in progress
@@ -813,6 +845,8 @@ Next ==
   \/ \E b \in Blobs, x \in Atoms : OpenWrite(b, x)
   \/ \E b \in Blobs : OpenRead(b)
   \/ CloseAll \/ Boundary
+  \/ \E b \in Blobs : Unlink(b)
+  \/ \E b \in Blobs : Relink(b)
   \/ \E v \in PVals : ModifyP(v)
   \/ Savepoint
   \/ \E k \in 1..MaxSp : Rollback(k)
@@ -848,6 +882,9 @@ OpenWriteQ(b, x) == FewEdits /\ b \notin con.touched /\ OpenWrite(b, x)
 OpenReadQ(b) == b \notin con.touched /\ OpenRead(b)
 BoundaryQ == res.call \in {"other", "abort"} /\ Boundary
 Handles == (\E b \in Blobs, x \in Atoms : OpenWriteQ(b, x)) \/ (\E b \in Blobs : OpenReadQ(b)) \/ CloseAll \/ BoundaryQ
+UnlinkQ(b) == FewEdits /\ Unlink(b)
+RelinkQ(b) == Relink(b)
+Links == (\E b \in Blobs : UnlinkQ(b)) \/ (\E b \in Blobs : RelinkQ(b))
 EditQ ==
   \/ \E b \in Blobs, c0 \in Contents1 : CreateBlobQ(b, c0)
   \/ \E b \in Blobs, x \in Atoms : RewriteQ(b, x)
@@ -893,7 +930,7 @@ TpcAbortR == (txn.phase = "caborted" \/ txn.tid % 2 = 0) /\ TpcAbort
 NextCommit == EditQ \/ Tpc \/ ConnAbortQ \/ TpcAbortQ \/ OtherQ \/ Race \/ Handles \/ Other
 NextAbort  == EditQ \/ Tpc \/ StoreFaultQ \/ ConnAbortR \/ TpcAbortR \/ AbortTxnQ \/ OtherQ \/ WrongSome \/ Race \/ Handles \/ AbortTxn
 NextUndo   == EditQ \/ Tpc \/ ConnAbortR \/ TpcAbortR \/ OtherQ \/ UndoAll \/ WrongSome
-NextPack   == EditQ \/ Tpc \/ ConnAbortR \/ TpcAbortR \/ OtherQ \/ UndoAll \/ PackSome \/ PackDuringSome
+NextPack   == EditQ \/ Links \/ Tpc \/ ConnAbortR \/ TpcAbortR \/ OtherQ \/ UndoAll \/ PackSome \/ PackDuringSome
 NextSp     == EditQ \/ Tpc \/ ConnAbortR \/ TpcAbortR \/ AbortTxnQ \/ OtherQ \/ SpQ
 
 (* ------------------------------ properties ------------------------------ *)
@@ -918,7 +955,7 @@ NoViolation == viol = {}
 UncommittedInvisible == \A k \in DOMAIN files : InFlight(k) => \A t \in DOMAIN osnap : k[2] > t
 SnapshotsReadable == \A t \in DOMAIN osnap : \A b \in Blobs : osnap[t][b] # Lost
 \* the lean packer is the packer transcription of ZPackOps (on what this module can reach)
-LeanPackAgrees == IsMixin => \A T \in 1..clk : LeanFilePack(hist, T) = FilePack(hist, T, TRUE)
+LeanPackAgrees == IsMixin => \A T \in 1..clk : LET r == LeanFilePack(hist, T) IN [out |-> r.out, h |-> r.h] = FilePack(hist, T, TRUE)
 \* the incrementally maintained tables are the functions of the state they are meant to be
 DerivedExact == osnap = SnapExpr /\ oiter = IterExpr /\ oview = ViewExpr /\ viol = ViolExpr
 
